@@ -71,6 +71,13 @@ def run(rep, work, tier, seed):
           expect_actions=["Prepare", "EnterPrepared", "ReEnter"])
     leg_r(rep, work, "Scopes", f"scopes_prep_conf_{tier}", cfg_text(sp, invariants=["TypeOK"]), lambda: ScopesDriver(("A", "B")),
           world=True)
+    # one prepared update object in use twice at the same time - by two tasks whose blocks overlap (each leaving first in
+    # turn), by one task nested in itself: refused, or let in as a block of its own; either way everybody gets back the
+    # context they had (directed programs recorded from the library, validated against Scopes.tla)
+    from harness.legs import OPT
+    if not OPT:      # (the refusal is an `assert`)
+        from props.scopes_common import TRACE_KW as SC_KW, shared_update_traces
+        leg_t_gen(rep, work, "Scopes", f"shared_update_{tier}", shared_update_traces(), **SC_KW)
     # leg T: 4 disposables / 3 spawned tasks, random environment moves among those the real scope offers
     from props.scopelife_common import TRACE_KW as LIFE_KW, gen_trace as life_trace
     rnd = random.Random(seed * 43 + 7)
